@@ -99,6 +99,21 @@ def run(ctx):
         ctx.check(aggs == {"CommentToEndOfLine"}, "C14.3", "parse_line:hash-starts-comment@%d" % hashes.index((a, s)), "'#' always leads to CommentToEndOfLine",
                   "after '#' the state can become %s" % sorted(aggs), f.loc(a))
 
+    # ... and the rest of the line is not looked at any more: once the state is CommentToEndOfLine no character of the
+    # comment can make the line an error (a comment may hold anything, non-ASCII text included)
+    n_c = 0
+    for b, i, st in A.aggregates(f, STATE):
+        if st["rv"]["variant"] != "CommentToEndOfLine" or b not in f.reachable(0):
+            continue
+        n_c += 1
+        reach = A.reachable_tagged(f, b)
+        bad = [eb for eb in errs if eb in reach and eb != b]
+        # errors raised in the same step (the pending name is flushed before the state changes) come before the aggregate
+        bad = [eb for eb in bad if not f.dominates(eb, b)]
+        ctx.check(not bad, "C14.3", "parse_line:comment-is-ignored#%d" % n_c, "after the comment has started nothing on the line can raise an error",
+                  "a character inside a comment can still make the line an error (%s)" % [f.loc(x) for x in bad], f.loc(b, i))
+    ctx.floor("C14.3", "transitions into the comment state", n_c, 1)
+
     # ---------------------------------------------------------------- C14.2 / C14.5
     fz = prog.find("<impl std::convert::From<dns_types::hosts::types::Hosts> for dns_types::zones::types::Zone>::from")
     fzr = A.Resolver(fz)
